@@ -29,26 +29,32 @@ structure CompSt (K : Type) where
 
 /-- one iteration `i2` of the compaction loop -/
 def compStep (thr : K) (st : CompSt K) (i2 : Nat) : CompSt K :=
-  let i1 := i2 - 1
-  if thr < (pA st.normals i1).dot (pA st.normals i2) then { st with nremoved := st.nremoved + 1 }
+  if thr < (pA st.normals (i2 - 1)).dot (pA st.normals i2) then { st with nremoved := st.nremoved + 1 }
   else { st with points := st.points.setIfInBounds (i2 - st.nremoved) (pA st.points i2),
                  normals := st.normals.setIfInBounds (i2 - st.nremoved) (pA st.normals i2) }
+
+/-- "see if the first vertex must be removed" -/
+def firstRemoved (thr : K) (normals : Array (V2 K)) : Nat :=
+  if thr < (pA normals 0).dot (pA normals (normals.size - 1)) then 1 else 0
+
+/-- the loop `for i2 in 1..points.len()` -/
+def compactAll (thr : K) (points normals : Array (V2 K)) (nrem0 : Nat) : CompSt K :=
+  ((List.range points.size).drop 1).foldl (compStep thr) ⟨points, normals, nrem0⟩
+
+/-- the two `truncate`s and the final `points.len() > 2` test (`n` = the original `points.len()`) -/
+def finishPolygon (n : Nat) (st : CompSt K) : Option (Polygon K) :=
+  if (st.points.extract 0 (n - st.nremoved)).size > 2 then
+    some ⟨st.points.extract 0 (n - st.nremoved), st.normals.extract 0 (n - st.nremoved)⟩
+  else none
 
 /-- `ConvexPolygon::from_convex_polyline` -/
 def fromConvexPolyline (points : Array (V2 K)) : Option (Polygon K) :=
   if points.size = 0 then none else
-  let eps : K := Num.sqrt (lit 1 4503599627370496)
   match (List.range points.size).mapM (fun i1 => ccwFaceNormal (pA points i1) (pA points ((i1 + 1) % points.size))) with
   | none => none
   | some ns =>
-    let normals := ns.toArray
-    let thr : K := 1 - eps
-    let nrem0 := if thr < (pA normals 0).dot (pA normals (normals.size - 1)) then 1 else 0
-    let st := ((List.range points.size).drop 1).foldl (compStep thr) ⟨points, normals, nrem0⟩
-    let newLen := points.size - st.nremoved
-    let pts' := st.points.extract 0 newLen
-    let ns' := st.normals.extract 0 newLen
-    if pts'.size > 2 then some ⟨pts', ns'⟩ else none
+    let thr : K := 1 - Num.sqrt (lit 1 4503599627370496)
+    finishPolygon points.size (compactAll thr points ns.toArray (firstRemoved thr ns.toArray))
 
 /-- `ConvexPolygon::from_convex_hull`: `None` inside = the documented `None`; outer `none` = `convex_hull2` panics -/
 def fromConvexHull (negMax eps100 : K) (pts : Array (V2 K)) : Option (Option (Polygon K)) :=
